@@ -658,6 +658,26 @@ def r8(ctx):
             ctx.ok(f'read:{token}', 'becomes a rectangle with [width, height](, angle)')
         else:
             ctx.bad('_CRTFRegionParser', f'notation:{token}', f'"{token}" is read as {show(reg, 200)}', 'regions/io/crtf/read.py')
+    # reading coord=: the reader's own frame-name mapping, evaluated on the CASA keywords the writer can emit
+    rp = m.cls('_CRTFRegionParser')
+    sc = method_or_fail(ctx, rp, 'set_coordsys')
+    over = {k: v for k, v in class_tables(m, '_CRTFRegionParser').get('coordsys_mapping', {}).items() if k != '__opaque__'}
+    astropy_names = ['icrs', 'fk5', 'fk4', 'galactic', 'supergalactic', 'geocentrictrueecliptic']
+    table = DictV([{**{n: Const(n) for n in astropy_names}, **{k: Const(v) for k, v in over.items()}}])
+    want_read = {'J2000': 'fk5', 'j2000': 'fk5', 'B1950': 'fk4', 'GALACTIC': 'galactic', 'ICRS': 'icrs', 'SUPERGAL': 'supergalactic',
+                 'ECLIPTIC': 'geocentrictrueecliptic', 'FK5': 'fk5'}
+    wrong = {}
+    for kw, frame in want_read.items():
+        o = Obj('_CRTFRegionParser', {'coordsys': Const(kw), 'coordsys_mapping': table}, None, rp)
+        Evaluator(m).run(sc, [o], {})
+        got = o.fields.get('coordsys')
+        if not (isinstance(got, Const) and got.v == frame):
+            wrong[kw] = show(got, 60)
+    if wrong:
+        ctx.bad('_CRTFRegionParser.set_coordsys', 'frame-keyword', f'coord= keywords are mapped to {wrong}; expected '
+                f'{ {k: want_read[k] for k in wrong} } (case-insensitive CASA names -> astropy frame names)', sc.loc())
+    else:
+        ctx.ok('_CRTFRegionParser.set_coordsys', f'{len(want_read)} CASA frame keywords (any case) map to their astropy frames')
     # metadata keys: what the reader accepts inline must be writable
     f = m.func(IO_CORE, '_to_crtf_meta')
     wkeys = []
@@ -1005,7 +1025,7 @@ RULES = [
     RuleDef('R5', 'global then inline metadata', r5, 2),
     RuleDef('R6', 'lengths need units', r6, 1),
     RuleDef('R7', 'serialisers do not mutate the regions', r7, 2),
-    RuleDef('R8', 'CASA frame keywords; read-side box notations; metadata key agreement', r8, 5),
+    RuleDef('R8', 'CASA frame keywords (written and read); read-side box notations; metadata key agreement', r8, 6),
     RuleDef('R10', 'list-valued metadata keys are written in the bracket form the reader splits', r10, 3),
     RuleDef('R11', 'coordinate and length token lexers (one probe token per dispatch branch)', r11, 2),
     RuleDef('R12', 'document level: global defaults, comments, ann/include prefixes, errors (probe documents)', r12, 8),
